@@ -108,6 +108,11 @@ def handleCore (j : Json) : R (List (String × Json)) := do
           | none => Json.null) qs)]
   -- oracles on the implementation's output
   let rejects := !(inconsistent ms) || implErr.isSome || !dev.isNull
+  -- the converse: a well-formed set is served (theorem `well_formed_is_served`)
+  let n0 := match ms with
+    | [] => 0
+    | m :: _ => Nat.sqrt m.durations.length
+  let serves := !(wellFormed ms n0) || implErr.isNone
   let mut values := true
   let mut same := true
   if implErr.isNone && !(impl.getObjVal? "inexact").toOption.isSome && dev.isNull then
@@ -122,6 +127,7 @@ def handleCore (j : Json) : R (List (String × Json)) := do
     same := sameForProfile qs rs (fun v => (vs[v]?).map (fun p => (p.index, p.scale)))
   return [("model", model),
           ("oracle", Json.mkObj [("rejects_inconsistent", Json.bool rejects),
+                                 ("serves_well_formed", Json.bool serves),
                                  ("returns_supplied_entry", Json.bool values),
                                  ("same_for_all_vehicles_of_profile", Json.bool same)])]
 
@@ -175,6 +181,18 @@ def handlePrag (j : Json) : R (List (String × Json)) := do
   let exempt (name : String) : Bool := devName == name && !inHyp
   let unknownRejected := namesKnown profiles ms || implErr.isSome || exempt "S28"
   let rejects := !(readerInconsistent profiles maxIndex ms) || implErr.isSome || !inHyp
+  -- the converse at reader level: a valid routing input (known names, one well-formed group per fleet profile, all of
+  -- the size the locations need) is accepted
+  let nn := maxIndex + 1
+  let readerWellFormed :=
+    !profiles.isEmpty && !hasDuplicates profiles && vs.all (fun v => profiles.contains v.matrix) &&
+    !(readerInconsistent profiles maxIndex ms) &&
+    (if ms.all (fun m => m.profile.isNone) then ms.length == profiles.length && ms.all (fun m => m.timestamp.isNone)
+     else
+       ms.all (fun m => m.profile.isSome) &&
+       (profiles.all (fun p => wellFormed ((namedFor profiles ms p).map (fun d => { d with index := 0 })) nn)) &&
+       (ms.all (fun m => m.timestamp.isSome) || ms.all (fun m => m.timestamp.isNone)))
+  let serves := !readerWellFormed || implErr.isNone
   let mut values := true
   let mut same := true
   let mut unreachable := true
@@ -218,6 +236,7 @@ def handlePrag (j : Json) : R (List (String × Json)) := do
         | none => false)
   return [("model", model),
           ("oracle", Json.mkObj [("rejects_inconsistent", Json.bool rejects),
+                                 ("serves_well_formed", Json.bool serves),
                                  ("unknown_location_is_at_zero", Json.bool unkZero),
                                  ("unknown_name_rejected", Json.bool unknownRejected),
                                  ("reader_maps_by_name", Json.bool values),
@@ -335,8 +354,21 @@ def handleApprox (j : Json) : R (List (String × Json)) := do
   let speedOk := (mats.zip profs).all (fun ((_, tt, d), (_, sp)) =>
     let s : Int := sp.getD 10
     (tt.zip d).all (fun (a, b) => 2 * (a * s - b).natAbs ≤ s.natAbs + 1))
+  -- the provider read_pragmatic builds: every vehicle sees the approximated matrix of its profile, durations times scale
+  let readJ ← fld impl "read"
+  let mut provided := (readJ.getObjVal? "err").toOption.isNone
+  if provided then
+    let size ← natF readJ "size"
+    let perV ← arrF readJ "vs"
+    provided := size == n && (vs.zip perV).all (fun (v, r) =>
+      match mats.find? (fun (nm, _, _) => nm == v.matrix),
+            (listF (optOf ratOf) r "du").toOption, (listF (optOf ratOf) r "di").toOption with
+      | some (_, tt, d), some du, some di =>
+        du == tt.map (fun (x : Int) => some ((x : Rat) * v.scale.getD 1)) && di == d.map (fun (x : Int) => some (x : Rat))
+      | _, _, _ => false)
   return [("model", Json.mkObj [("mats", matsJ), ("read", readModel)]),
           ("oracle", Json.mkObj [("shape", Json.bool shape), ("symmetric", Json.bool sym),
+                                 ("provider_returns_approximation", Json.bool provided),
                                  ("zero_diagonal", Json.bool diag), ("non_negative", Json.bool nonneg),
                                  ("same_distances", Json.bool sameDist), ("duration_is_distance_over_speed", Json.bool speedOk)])]
 
